@@ -77,7 +77,7 @@ func slotAgreement(r *core.Run) {
 	}
 	// writer: format constant -> wrapper names
 	wmap := map[string]map[string]bool{}
-	ast.Inspect(wfd.Body, func(n ast.Node) bool {
+	ast.Inspect(core.TreeBody(wpk, wfd), func(n ast.Node) bool {
 		cc, ok := n.(*ast.CaseClause)
 		if !ok || len(cc.List) != 1 {
 			return true
@@ -210,7 +210,7 @@ func boundPolarity(r *core.Run) {
 	rfd, rpk := r.P.FuncDecl(schemaRel, "buildScalarType")
 	exclusive := map[string]bool{}
 	if rfd != nil {
-		ast.Inspect(rfd.Body, func(n ast.Node) bool {
+		ast.Inspect(core.TreeBody(rpk, rfd), func(n ast.Node) bool {
 			cc, ok := n.(*ast.CaseClause)
 			if !ok || len(cc.List) != 1 {
 				return true
@@ -232,7 +232,7 @@ func boundPolarity(r *core.Run) {
 		})
 	}
 	n := 0
-	ast.Inspect(wfd.Body, func(nd ast.Node) bool {
+	ast.Inspect(core.TreeBody(wpk, wfd), func(nd ast.Node) bool {
 		ifs, ok := nd.(*ast.IfStmt)
 		if !ok || ifs.Else == nil {
 			return true
@@ -607,7 +607,7 @@ func sourceCoverage(r *core.Run) {
 				if inner == nil {
 					continue
 				}
-				rd := rules.CollectReads(pk, []ast.Node{cc})
+				rd := rules.CollectReads(pk, core.TreeOf(pk, cc, 3, "buildField", "buildProperty")) // the arm and the helpers it hands the schema to
 				check := func(msg *types.Named) {
 					mn := "schema_j5pb." + msg.Obj().Name()
 					for _, f := range core.StructFields(msg) {
